@@ -204,7 +204,7 @@ Proof. reflexivity. Qed.
 
 Ltac run_step c t b e Ed x b' k Es :=
   rewrite run_cons in *; destruct (ctx_done_by c (t + e_dur e)) eqn:Ed;
-  [ | destruct (step c t (t + e_dur e) b e) as [[x b'] k] eqn:Es; destruct k ].
+  [ | destruct (step c t (t + e_dur e) b e) as [[x b'] k] eqn:Es; destruct k as [res_f | | t_n] ].
 
 Lemma first_attempt c t b e evs : exists rest, o_attempts (run c t b (e :: evs)) = t :: rest.
 Proof. run_step c t b e Ed x b' k Es; simpl; eauto. Qed.
@@ -303,7 +303,7 @@ Proof.
     + left. reflexivity.
     + destruct (step_finished _ _ _ _ _ _ _ _ Es) as (_ & Hr & _). unfold retry_ev in He0. congruence.
     + left. reflexivity.
-    + destruct (IH z b') as [H | (H1 & H2 & tr & y & H3 & H4 & H5 & H6)]; cbv zeta in *.
+    + destruct (IH t_n b') as [H | (H1 & H2 & tr & y & H3 & H4 & H5 & H6)]; cbv zeta in *.
       * left. exact H.
       * right. repeat split; auto. exists (x :: tr), y. simpl. rewrite H3. repeat split; auto.
 Qed.
@@ -326,33 +326,28 @@ Lemma ctx_spec c evs : Forall (fun e => 0 <= e_dur e) evs -> forall t b,
   /\ t <= o_end out.
 Proof.
   induction 1 as [|e evs Hd Hds IH]; intros t b; cbv zeta.
-  - simpl. repeat split; try constructor; try discriminate; try lia.
-    + intros e _ H. congruence.
-    + intros [[? H] | (? & ? & H)]; discriminate.
-  - assert (Hdone : forall r, ctx_done_by c r = true -> t <= r ->
-              exists e', c_end c = Some e' /\ ctx_end_or c t = Z.max e' t /\ (ctx_done_by c t = false -> ctx_end_or c t = e')).
-    { intros r Hr Htr. unfold ctx_done_by, ctx_end_or in *. destruct (c_end c) as [e'|]; [|discriminate].
-      exists e'. repeat split; lia. }
-    run_step c t b e Ed x b' k Es; simpl.
+  - simpl. split; [constructor|]. split; [intros k H; discriminate|].
+    split; [intros e _ H; congruence|]. split; [|lia].
+    intros [[? H] | (? & ? & H)]; discriminate.
+  - run_step c t b e Ed x b' k Es; simpl.
     + (* the context ended during (or before) the request *)
-      destruct (Hdone _ Ed ltac:(lia)) as (e' & He' & Hm & _).
-      repeat split.
-      * constructor; auto.
-      * inversion H; auto.
-      * exists e'. split; auto.
-      * intros e0 He0 _. rewrite He' in He0. injection He0 as <-. lia.
-      * intros [[? H] | (? & ? & H)]; discriminate.
-      * unfold ctx_end_or. destruct (c_end c); lia.
+      assert (He : exists e', c_end c = Some e' /\ ctx_end_or c t = Z.max e' t).
+      { unfold ctx_done_by, ctx_end_or in *. destruct (c_end c) as [e'|]; [|discriminate]. eauto. }
+      destruct He as (e' & He' & Hm).
+      split; [constructor; auto|]. split.
+      { intros k H. inversion H. split; auto. exists e'. auto. }
+      split.
+      { intros e0 He0 _. rewrite He' in He0. injection He0 as <-. lia. }
+      split.
+      { intros [[? H] | (? & ? & H)]; discriminate. }
+      unfold ctx_end_or. destruct (c_end c); lia.
     + (* final answer *)
-      repeat split.
-      * constructor; auto.
-      * destruct (step_finished _ _ _ _ _ _ _ _ Es) as (-> & _). unfold final_result. intros H.
-        destruct (action_of (e_out e)); discriminate.
-      * destruct (step_finished _ _ _ _ _ _ _ _ Es) as (-> & _). unfold final_result. intros H.
-        destruct (action_of (e_out e)); discriminate.
-      * intros e0 He0 _. unfold ctx_done_by in Ed. rewrite He0 in Ed. lia.
-      * intros _. exact Ed.
-      * lia.
+      destruct (step_finished _ _ _ _ _ _ _ _ Es) as (-> & _).
+      split; [constructor; auto|]. split.
+      { unfold final_result. intros k H. destruct (action_of (e_out e)); discriminate. }
+      split.
+      { intros e0 He0 _. unfold ctx_done_by in Ed. rewrite He0 in Ed. lia. }
+      split; [intros _; exact Ed | lia].
     + (* the context ended during the wait *)
       destruct (step_cut _ _ _ _ _ _ _ Es) as (Hc & _).
       destruct (step_fields _ _ _ _ _ _ _ _ Es) as (_ & _ & _ & _ & _ & _ & Hm).
@@ -362,24 +357,24 @@ Proof.
           pose proof (next_bounds (t + e_dur e) (b_nb b'') (r_j x)). cbv zeta in H. lia.
         - destruct Hm as (_ & -> & _). lia. }
       unfold ctx_done_by in Hc, Ed. unfold ctx_end_or. destruct (c_end c) as [e'|] eqn:He'; [|discriminate].
-      repeat split.
-      * constructor; auto.
-      * inversion H; auto.
-      * exists e'. split; auto. lia.
-      * intros e0 He0 _. injection He0 as <-. lia.
-      * intros [[? H] | (? & ? & H)]; discriminate.
-      * lia.
+      split; [constructor; auto|]. split.
+      { intros k H. inversion H. split; auto. exists e'. split; auto. lia. }
+      split.
+      { intros e0 He0 _. injection He0 as <-. lia. }
+      split.
+      { intros [[? H] | (? & ? & H)]; discriminate. }
+      lia.
     + (* another round *)
       destruct (step_again _ _ _ _ _ _ _ _ Es) as (-> & Hlive & _ & Hle & _).
       destruct (IH (r_next x) b') as (IH1 & IH2 & IH3 & IH4 & IH5).
-      repeat split.
-      * constructor; auto. eapply Forall_impl; [|exact IH1]. simpl. intros a [-> | Ha]; auto.
-      * destruct (IH2 _ H) as (-> & _). reflexivity.
-      * destruct (IH2 _ H) as (_ & e' & He' & Hend). exists e'. split; auto.
-        unfold ctx_done_by in Hlive. rewrite He' in Hlive. lia.
-      * intros e0 He0 Hp. specialize (IH3 _ He0 Hp). unfold ctx_done_by in Hlive. rewrite He0 in Hlive. lia.
-      * exact IH4.
-      * lia.
+      split.
+      { constructor; auto. eapply Forall_impl; [|exact IH1]. simpl. intros a [-> | Ha]; auto. }
+      split.
+      { intros k H. destruct (IH2 _ H) as (-> & e' & He' & Hend). split; auto. exists e'. split; auto.
+        unfold ctx_done_by in Hlive. rewrite He' in Hlive. lia. }
+      split.
+      { intros e0 He0 Hp. specialize (IH3 _ He0 Hp). unfold ctx_done_by in Hlive. rewrite He0 in Hlive. lia. }
+      split; [exact IH4 | lia].
 Qed.
 
 (* ------------------------------------------------------------------ pacing *)
@@ -447,7 +442,7 @@ Proof.
   rewrite Hat, Hr in Hd.
   assert (Hub : b_nb b' <= t + e_dur e + max_i64).
   { rewrite apply_action_spec in E. pose proof max_i64_val.
-    destruct (action_of (e_out e)); try discriminate; inversion E; subst.
+    destruct (action_of (e_out e)); try discriminate; injection E as Eb Ew; rewrite <- Eb.
     - pose proof (set_upper (t + e_dur e) None b Hm). simpl in H0. lia.
     - lia.
     - pose proof (set_upper (t + e_dur e) (override_of conv ra (t + e_dur e)) b Hm).
@@ -478,7 +473,7 @@ Proof.
       pose proof (next_bounds (t0 + e_dur e) (b_nb (fst (set (t0 + e_dur e) None b0))) (r_j x)) as Hb'.
       cbv zeta in Hb'. pose proof max_i64_val. lia. }
     intros [E | [E | E]]; rewrite E in Hmatch; destruct Hmatch as (Hb' & _ & _ & Hn' & _);
-      eapply Hnil; eauto.
+      (eapply Hnil; [reflexivity | exact Hb' | rewrite Hb'; exact Hn']).
   - intros t' ->. eapply step_settled; eauto.
 Qed.
 
@@ -500,8 +495,7 @@ Proof.
     rewrite Ha, Hr, Hbef, Haft. rewrite Hat, Hr in Hd. rewrite apply_action_spec in Hmatch.
     intros E. rewrite E in Hmatch. destruct Hmatch as (-> & -> & _ & -> & _).
     pose proof (next_bounds (t0 + e_dur e) (b_nb b0) (r_j x)) as Hb'. cbv zeta in Hb'.
-    repeat split; auto; try lia.
-    intros Hz. rewrite backoff_wait_zero by exact Hz. lia.
+    repeat split; auto; lia.
   - intros t' ->. eapply step_settled; eauto.
 Qed.
 End ConvLe.
@@ -518,23 +512,24 @@ Proof.
   intros Ed. cbv zeta. rewrite run_cons, Ed.
   destruct (step c t (t + e_dur e) b e) as [[x b'] k] eqn:Es.
   destruct (step_fields _ _ _ _ _ _ _ _ Es) as (Hat & Hr & Ho & _).
-  destruct k; simpl.
+  destruct k as [res_f | | t_n]; unfold cons_out; cbn [o_attempts o_trace].
   - exists x, []. destruct (step_finished _ _ _ _ _ _ _ _ Es) as (_ & Hf & _).
-    repeat split; auto.
-    + intros (a & more & H). discriminate.
-    + intros [H _]. congruence.
-    + intros a more H. discriminate.
+    split; [reflexivity|]. split; [exact Hat|]. split; [exact Hr|]. split; [exact Ho|]. split; [split|].
+    + intros (a & more & Hx). discriminate.
+    + intros [Hx _]. congruence.
+    + intros a more Hx. discriminate.
   - exists x, []. destruct (step_cut _ _ _ _ _ _ _ Es) as (Hc & _).
-    repeat split; auto.
-    + intros (a & more & H). discriminate.
-    + intros [_ H]. congruence.
-    + intros a more H. discriminate.
+    split; [reflexivity|]. split; [exact Hat|]. split; [exact Hr|]. split; [exact Ho|]. split; [split|].
+    + intros (a & more & Hx). discriminate.
+    + intros [_ Hx]. congruence.
+    + intros a more Hx. discriminate.
   - destruct (step_again _ _ _ _ _ _ _ _ Es) as (-> & Hl & Hre & _).
     destruct (first_attempt c (r_next x) b' e2 evs) as [rest Hrest].
     exists x, (o_trace (run c (r_next x) b' (e2 :: evs))). rewrite Hrest.
-    repeat split; auto.
-    + eauto.
-    + intros a more H. injection H as <- _. reflexivity.
+    split; [reflexivity|]. split; [exact Hat|]. split; [exact Hr|]. split; [exact Ho|]. split; [split|].
+    + intros _. split; assumption.
+    + intros _. eauto.
+    + intros a more Hx. injection Hx as <- _. reflexivity.
 Qed.
 
 End Conv.
